@@ -280,9 +280,17 @@ def run_property(prop, tier, seed, jobs, write_baseline, t_start):
         bound = int(os.environ.get("VERIF_FALLBACK_BOUND", bound))
         u = {"kind": "unroll", "qual": qual, "bound": bound, "nrefs": P.get("fallback_nrefs", 4),
              "nstrs": P.get("fallback_nstrs", 8), "timeout_ms": 45000, "second_solver": False}
-        # always in a fresh process: one z3 context per engine
-        with mp.Pool(1, maxtasksperchild=1) as fpool:
-            return fpool.apply(_work, (u,))
+        if qual in ("BaseProject.simulate", "BaseProject.backward_simulate"):
+            # unrolling the main loop of a whole run is out of reach; a failed obligation there is reported without a model
+            return {"unit": u, "obligations": [], "error": None, "unsupported": "not unrolled: too large for a counter-model search"}
+        # always in a fresh process: one z3 context per engine; the search for a counter-model is capped in wall-clock time
+        fpool = mp.Pool(1, maxtasksperchild=1)
+        try:
+            return fpool.apply_async(_work, (u,)).get(timeout=int(os.environ.get("VERIF_FALLBACK_S", "420")))
+        except mp.TimeoutError:
+            return {"unit": u, "obligations": [], "error": None, "unsupported": "counter-model search stopped after its time cap"}
+        finally:
+            fpool.terminate()
 
     baseline_norm = {_norm(b) for b in baseline}
     fallback_cache = {}
